@@ -162,6 +162,46 @@ def piece_c(plan):
     return b
 
 
+def q_split_chunks(fl, bins):
+    """whole-bar chunks cut with Sequence.split (they do not re-announce the signature); a stray signature mid-bar is
+    skipped by every call and must not leak into the carried state"""
+    def fn(ctx):
+        tok = mk(fl, bins, 1)
+        nb = 4
+        k = ctx.int("k", 0, 7)
+        j = ctx.int("j", 0, 3)
+        stray = 12 * ctx.int("s", 1, 7)
+
+        def piece():
+            ms = [ts(3, 4, time=stray), on(0, 60, 70, time=12 * k), off(0, 60, time=12 * k + 12),
+                  on(0, 62, 70, time=96 * 2 + 24 * j), off(0, 62, time=96 * 2 + 24 * j + 24),
+                  Message(message_type=INTERNAL, channel=0, time=96 * nb)]
+            return abs_sequence(ms)
+        ok, whole = call(tok.tokenise, [piece()])
+        ctx.must("whole_piece_tokenises", ok)
+        if not ok:
+            return ["raised"]
+        ref = notes_of(tok.detokenise(whole))
+        bad = []
+        for groups in compositions(nb):
+            chunks = piece().split([96 * len(g) for g in groups[:-1]])
+            state, toks, okc = dict(), [], True
+            for c_ in chunks:
+                o, t = call(tok.tokenise, [c_], state_dict=state)
+                if not o:
+                    okc = False
+                    bad.append((groups, "raised " + type(t).__name__))
+                    break
+                toks.extend(t)
+            if okc and notes_of(tok.detokenise(toks)) != ref:
+                bad.append((groups, "differs"))
+        ctx.note("groupings_that_differ", [str(b) for b in bad][:6])
+        ctx.must("every_grouping_equals_whole", not bad, disc="split_chunks")
+        return [whole, [str(b) for b in bad]]
+    return Query(f"split_chunks/f{''.join(str(int(x)) for x in fl)}-b{bins}", fn, ["whole_piece_tokenises", "every_grouping_equals_whole"],
+                 desc="chunks cut with Sequence.split, stray mid-bar signature")
+
+
 def q_clock_lemma(fl, bins):
     """the carried absolute clock never leaks into the tokens: same chunk from cur_time = T0 (unbounded) and from 0"""
     def fn(ctx):
@@ -202,6 +242,8 @@ def queries(tier, seed):
         qs.append(q_groups("a", FLAGS[0], 1, piece_a(plan), plan))
         qs.append(q_groups("c", FLAGS[15], 8, piece_c(plan), plan))
     qs.append(q_groups("c", FLAGS[0], 1, piece_c("none"), "none"))
+    qs.append(q_split_chunks(FLAGS[0], 1))
+    qs.append(q_split_chunks(FLAGS[15], 8))
     qs.append(q_groups("a", FLAGS[0], 1, piece_a("34-38-34"), "34-38-34"))     # signature history A -> B -> A
     qs.append(q_groups("a", FLAGS[15], 8, piece_a("none"), "none", bar_tokens=False))
     qs.append(q_groups("c", FLAGS[0], 1, piece_c("34"), "34", bar_tokens=False))
